@@ -4,6 +4,7 @@ CONSTANTS
   WLo = @WLO@
   WHi = @WHI@
   Scale = @SCALE@
+  AnyOrder = @ANYORDER@
   MaxConn = @MAXCONN@
   MaxPicks = @PICKS@
   MaxFlips = @FLIPS@
